@@ -140,7 +140,7 @@ def firings(desc, order):
                 out.append((at, j, it["cb"]))
                 cb = desc["callbacks"][it["cb"]]
                 # the operations run in order until one raises (unschedule of an absent track); a stop-self that succeeds ends the caller
-                stop = any(o == ["unschedule", j] for o in cb["ops"])
+                stop = any(o == ["unschedule", j] or o[0] == "clear" for o in cb["ops"])
             N += it["dur"]; pos += 1; n += 1
             if stop:
                 break
@@ -157,6 +157,10 @@ def fates(desc, order):
             if o[0] == "schedule":
                 tpl = desc["news"][o[1]]
                 born.append((at if tpl["d"] else at + 1, o[1]))
+            elif o[0] == "clear":           # (scene changes of C06: clear() first, then the new tracks) every other original track is removed
+                for x in range(len(desc["tracks"])):
+                    if x != j:
+                        fate[x].setdefault(at if order.index(x) > order.index(j) else at + 1, []).append("unschedule")
             elif o[1] != j:
                 x = o[1]
                 when = at if order.index(x) > order.index(j) else at + 1
@@ -188,7 +192,7 @@ def joint_scenario(desc, order):
     for c in desc["callbacks"]:
         ops = []
         for o in c["ops"]:
-            ops.append(sched_of(desc["news"][o[1]]) if o[0] == "schedule" else [o[0], ids[o[1]]])
+            ops.append(sched_of(desc["news"][o[1]]) if o[0] == "schedule" else ["clear"] if o[0] == "clear" else [o[0], ids[o[1]]])
         cbs.append({"raise": c["raise"], "ops": ops})
     events = {desc["T0"]: [sched_of(desc["tracks"][j]) for j in order]}
     return {"tpb": desc["tpb"], "config": dict(desc["config"]), "callbacks": cbs, "ops": ops_from(events, desc["horizon"])}, ids
@@ -201,7 +205,8 @@ def solo_scenario(desc, order, j):
     cbs = []
     for c in desc["callbacks"]:
         mine = c["owner"] == desc["tracks"][j]["chan"]
-        cbs.append({"raise": c["raise"], "ops": [[o[0], 0] for o in c["ops"] if mine and o[0] != "schedule" and o[1] == j]})
+        cbs.append({"raise": c["raise"], "ops": [["unschedule", 0] if o[0] == "clear" else [o[0], 0] for o in c["ops"]
+                                                 if mine and o[0] != "schedule" and (o[0] == "clear" or o[1] == j)]})
     events = {desc["T0"]: [sched_of(desc["tracks"][j])]}
     for when, names in fate[j].items():
         events.setdefault(when, [])
